@@ -154,8 +154,10 @@ def main(argv):
         # every run is process 1 of its own container (python experiment.py as the entry point, the data home on a
         # mounted volume): the killed run, the later run and every run after it have the SAME process id and main-thread id
         _real_tid = threading.get_native_id
+        _main_ident = threading.get_ident()         # (no current_thread() here: it is called while threads bootstrap)
+        _get_ident = threading.get_ident
         os.getpid = lambda: 1
-        threading.get_native_id = lambda: 1 if threading.current_thread() is threading.main_thread() else _real_tid()
+        threading.get_native_id = lambda: 1 if _get_ident() == _main_ident else _real_tid()
     from twverif import import_target
     from twverif.monitors import audit, fakenet
     if spec.get("logging"):
